@@ -87,26 +87,26 @@ def grep_gate():
 
 # which theorem files (and which theorems in them) are the proof obligations of each property
 PROPS = {
-    "C01": [("Rank.v", r"^C01_"), ("Instance.v", r"^I_C01_|^I_a_quantile|^I_a_rank"), ("Refine.v", r"Rf_plain_quantile|Rf_executable_quantile|Rf_plain_add"), ("Rounding.v", r"R_rnd64_rndQ|R_rndQ_mono|R_rndQ_int|R_q2f_correct")],
-    "C02": [("Sketch.v", r"^C02_"), ("LayerA.v", r"^A3_"), ("Refine.v", r"Rf_st_merge|Rf_sk_merge|Rf_sketch_history")],
-    "C03": [("C03.v", r"."), ("Glue.v", r".")],
-    "C04": [("C04dense.v", r"."), ("C04pag.v", r"."), ("C04pagloops.v", r"."), ("C04sparse.v", r"."), ("LayerA.v", r"^A[1-7]_"), ("Refine.v", r"^Rf_st_|^Rf_StInv")],
+    "C01": [("Rank.v", r"^C01_"), ("Instance.v", r"^I_C01_|^I_a_quantile|^I_a_rank"), ("Refine.v", r"Rf_plain_quantile|Rf_executable_quantile|Rf_plain_add"), ("Rounding.v", r"R_rnd64_rndQ|R_rndQ_mono|R_rndQ_int|R_q2f_correct"), ("Bridge.v", r"Bridge_C01_|Bridge_snapped|Bridge_index_|Bridge_gmap|Bridge_q2f")],
+    "C02": [("Sketch.v", r"^C02_"), ("LayerA.v", r"^A3_"), ("Refine.v", r"Rf_st_merge|Rf_sk_merge|Rf_sketch_history"), ("Misc.v", r"^GRID_"), ("Bridge.v", r"Bridge_C02_|Bridge_observers|Bridge_a_run")],
+    "C03": [("C03.v", r"."), ("Glue.v", r"."), ("Bridge.v", r"Bridge_index_|Bridge_gmap|Bridge_gm_checkb")],
+    "C04": [("C04dense.v", r"."), ("C04pag.v", r"."), ("C04pagloops.v", r"."), ("C04sparse.v", r"."), ("LayerA.v", r"^A[1-7]_"), ("Refine.v", r"^Rf_st_|^Rf_StInv"), ("Misc.v", r"^GRID_")],
     "C05": [("C05.v", r"."), ("LayerA.v", r"^A8_"), ("Sketch2.v", r"^C05_")],
-    "C06": [("Wire.v", r"^C06_"), ("WireRaw.v", r"concat"), ("WireAny.v", r"^C06_")],
-    "C07": [("Wire.v", r"^C07_"), ("WireRaw.v", r"."), ("WireAny.v", r"^C07_")],
-    "C08": [("Wire.v", r"^C08_"), ("WireAny.v", r"^C08_"), ("C18.v", r"prefix_eof|reads_at_most_9"), ("C19.v", r"truncated|short_input|unknown_mapping")],
-    "C09": [("Proto.v", r".")],
-    "C10": [("C10.v", r".")],
+    "C06": [("Wire.v", r"^C06_"), ("WireRaw.v", r"concat"), ("WireAny.v", r"^C06_"), ("WireAny2.v", r"^C06_x_")],
+    "C07": [("Wire.v", r"^C07_"), ("WireRaw.v", r"."), ("WireAny.v", r"^C07_"), ("WireAny2.v", r"^C07_x_")],
+    "C08": [("Wire.v", r"^C08_"), ("WireAny.v", r"^C08_"), ("WireAny2.v", r"^C08_x_"), ("C18.v", r"prefix_eof|reads_at_most_9"), ("C19.v", r"truncated|short_input|unknown_mapping")],
+    "C09": [("Proto.v", r"."), ("Misc.v", r"^C09_b_")],
+    "C10": [("C10.v", r"."), ("Kahan.v", r"."), ("Misc.v", r"^C10_f_")],
     "C11": [("Rank.v", r"^C11_"), ("Instance.v", r"^I_C11_"), ("Sketch2.v", r"^C11_")],
     "C12": [("Sketch.v", r"^C12_"), ("Instance.v", r"^I_C12_"), ("Refine.v", r"Rf_plain_count|Rf_plain_is_empty|Rf_plain_max|Rf_plain_min|Rf_sk_foreach"), ("Sketch2.v", r"^C12_|^I_C12_")],
-    "C13": [("Sketch.v", r"^C13_"), ("Refine.v", r"too_high|too_low|no_panic|Rf_sk_add")],
+    "C13": [("Sketch.v", r"^C13_"), ("Refine.v", r"too_high|too_low|no_panic|Rf_sk_add"), ("Bridge.v", r"Bridge_with_")],
     "C14": [("C04pag.v", r"reads_pure|foreach|compact|key_at_rank"), ("C04pagloops.v", r"."), ("C04dense.v", r"foreach|key_at_rank|total|min_index|max_index"),
             ("C20.v", r"queries_transparent|inv_lower|inv_upper"), ("Refine.v", r"reads_pure|quantile_pure|copy")],
     "C15": [("C04dense.v", r"inv_clear|clear_like_new"), ("C04pag.v", r"clear"), ("C05.v", r"clear"), ("C04sparse.v", r"clear"), ("Refine.v", r"clear")],
-    "C16": [("Sketch.v", r"^C16_"), ("C04dense.v", r"reweight"), ("C04pag.v", r"reweight"), ("LayerA.v", r"^A5_|bscale"), ("C05.v", r"reweight"), ("Refine.v", r"reweight"), ("C10.v", r"^reweight_")],
-    "C17": [("ChangeMapping.v", r"."), ("ChangeMappingF.v", r"."), ("C10.v", r"^rescale_")],
+    "C16": [("Sketch.v", r"^C16_"), ("C04dense.v", r"reweight"), ("C04pag.v", r"reweight"), ("LayerA.v", r"^A5_|bscale"), ("C05.v", r"reweight"), ("Refine.v", r"reweight"), ("C10.v", r"^reweight_"), ("Misc.v", r"^C16_f_|^GRID_")],
+    "C17": [("ChangeMapping.v", r"."), ("ChangeMappingF.v", r"."), ("C10.v", r"^rescale_"), ("Misc.v", r"^C17_f_")],
     "C18": [("C18.v", r".")],
-    "C19": [("C19real.v", r"."), ("C19.v", r"."), ("Glue.v", r"build_float64|decompose|f_of_int")],
+    "C19": [("C19real.v", r"."), ("C19.v", r"."), ("Glue.v", r"build_float64|decompose|f_of_int"), ("Bridge.v", r"Bridge_with_.*rebuild|Bridge_with_gamma_fields|Bridge_with_accuracy_is")],
     "C20": [("C20.v", r"."), ("Instance.v", r"^I_C20_")],
 }
 
